@@ -79,7 +79,9 @@ func concatParts(v ssa.Value, depth int) []ssa.Value {
 			default:
 				// single-argument pure helpers (Dir, Clean, CleanPath ...) keep the shape
 				if idx, ok := pureStringFuncs[qualName(f)]; ok && len(idx) == 1 && idx[0] >= 0 && idx[0] < len(x.Call.Args) {
-					return concatParts(x.Call.Args[idx[0]], depth+1)
+					if inner := concatParts(x.Call.Args[idx[0]], depth+1); len(inner) > 1 {
+						return inner
+					}
 				}
 			}
 		}
